@@ -1,7 +1,7 @@
 //@op concat
 //@properties C01 C02 C03 C04 C05 C09 C13 C14 C17 C20
-// the zero-member case, kept in a unit of its own so that the known finding F6 (a sink that was never
-// greeted is terminated) cannot hide a different defect at the same call site for n >= 1
-// with no members the member handler and the sink talkback are unreachable (the sink is never greeted)
-//@vacuous-ok concat__source_talkback concat__sink_talkback concat__next
-//@include concat_body.rs NCOND="c.n == 0"
+// the zero-member case, a unit of its own: the sink is greeted with a talkback that only records a disposal
+// (`empty_talkback`) and is completed inside the subscribing call
+// with no members the member handler and `next` are unreachable
+//@vacuous-ok concat__source_talkback concat__next
+//@include concat_body.rs NCOND="c.n == 0" SINKTB=empty_talkback SKIP=sink_talkback
